@@ -7,7 +7,7 @@ import json, os, re, shutil, subprocess, sys
 prop, letter, needs = sys.argv[1], sys.argv[2], sys.argv[3]
 feat = sys.argv[sys.argv.index("--features") + 1] if "--features" in sys.argv else ""
 confirmed = sys.argv[sys.argv.index("--confirmed") + 1] if "--confirmed" in sys.argv else "yes"
-src = "/tmp/seed/%s/MUTANTS/%s" % (prop, letter)
+src = "%s/%s/MUTANTS/%s" % (os.environ.get("SEED_ROOT", "/tmp/seed"), prop, letter)
 dst = "/verif/seeded/%s-%s" % (prop, letter)
 os.makedirs(dst, exist_ok=True)
 for f in os.listdir(src):
@@ -33,7 +33,7 @@ meta = {
     "needs_to_manifest": needs,
     "demo": {"file": "demo.rs", "place_at": "tests/demo_%s.rs" % letter, "features": feat},
     "confirmed_by_me": {
-        "how": "tools/confirm_seed.sh in the scratch worktree /tmp/seed/%s (removed afterwards)" % prop,
+        "how": "tools/confirm_seed.sh in the scratch worktree %s/%s (removed afterwards)" % (os.environ.get("SEED_ROOT", "/tmp/seed"), prop),
         "suite_passes_with_change": confirmed != "no",
         "demo_fails_with_change": confirmed != "no",
         "demo_passes_without_change": confirmed != "no",
